@@ -27,9 +27,11 @@ type caseT struct {
 	R  operandSpec `json:"r"`
 }
 
-var opNames = map[string]string{"+": "plus", "-": "minus", "*": "mult", "DIV": "intdiv", "%": "mod", "MOD": "mod", "/": "div", "neg": "neg"}
-var opCoq = map[string]string{"+": "Plus", "-": "Minus", "*": "Mult", "DIV": "IntDiv", "%": "Mod", "MOD": "Mod", "/": "Div", "neg": "Neg"}
-var ops = []string{"+", "-", "*", "DIV", "%", "/", "neg", "MOD"}
+var opNames = map[string]string{"+": "plus", "-": "minus", "*": "mult", "DIV": "intdiv", "%": "mod", "MOD": "mod", "/": "div", "neg": "neg", "abs": "abs", "sign": "sign"}
+var opCoq = map[string]string{"+": "Plus", "-": "Minus", "*": "Mult", "DIV": "IntDiv", "%": "Mod", "MOD": "Mod", "/": "Div", "neg": "Neg", "abs": "Abs", "sign": "Sign"}
+var ops = []string{"+", "-", "*", "DIV", "%", "/", "neg", "MOD", "abs", "sign"}
+
+func unary(op string) bool { return op == "neg" || op == "abs" || op == "sign" }
 
 type intType struct {
 	Name, SQL, Coq string
@@ -223,7 +225,7 @@ func genOperand(r *lib.RNG) operandSpec {
 
 func gen(r *lib.RNG) caseT {
 	c := caseT{Op: ops[r.Intn(len(ops))], L: genOperand(r), R: genOperand(r)}
-	if c.Op == "neg" {
+	if unary(c.Op) {
 		c.R = operandSpec{Kind: "null"}
 		if c.L.Kind == "null" && r.Chance(9, 10) {
 			t := &intTypes[r.Intn(len(intTypes))]
@@ -234,7 +236,7 @@ func gen(r *lib.RNG) caseT {
 	case 0: // the most negative BIGINT (column, literal or CAST) against a decimal / unsigned / small operand
 		c.L = lib.Pick(r, []operandSpec{{Kind: "col", Type: "i64", Text: "-9223372036854775808"}, {Kind: "lit", Text: "-9223372036854775808"},
 			{Kind: "cast", Type: "signed", Text: "-9223372036854775808"}})
-		if c.Op != "neg" {
+		if !unary(c.Op) {
 			c.R = lib.Pick(r, []operandSpec{{Kind: "lit", Text: "0.5"}, {Kind: "lit", Text: "10"}, {Kind: "lit", Text: "-1"}, {Kind: "lit", Text: "-1.0"}, {Kind: "lit", Text: "1.0"},
 				{Kind: "col", Type: "u8", Text: "3"}, {Kind: "col", Type: "u64", Text: "1"}, {Kind: "col", Type: "i8", Text: "-1"}, {Kind: "col", Type: "decimal(10,2)", Text: "-1.00"},
 				{Kind: "col", Type: "u64", Text: "18446744073709551615"}, {Kind: "lit", Text: "3"}, {Kind: "col", Type: "decimal(5,0)", Text: "7"}})
@@ -246,7 +248,7 @@ func gen(r *lib.RNG) caseT {
 			}
 		}
 	case 1: // BIGINT UNSIGNED beyond 2^63 against a negative signed / decimal operand (|quotient| around 2^63)
-		if c.Op != "neg" {
+		if !unary(c.Op) {
 			c.L = operandSpec{Kind: lib.Pick(r, []string{"col", "lit", "cast"}), Type: "u64", Text: lib.Pick(r, []string{"18446744073709551615", "9223372036854775809", "9223372036854775808", "9223372036854775807", "18446744073709551614", "13835058055282163712"})}
 			if c.L.Kind == "cast" {
 				c.L.Type = "unsigned"
@@ -394,7 +396,7 @@ var goName = map[string]string{"I8": "int8", "I16": "int16", "I32": "int32", "I6
 // operandClass narrows a failure signature by the operands' shape: the operand type for unary minus; uu / ss / mixed
 // for two integers (by signedness); dec when a decimal is involved.
 func operandClass(op string, l, r obs) string {
-	if op == "neg" {
+	if unary(op) {
 		if l.Kind == "int" {
 			return l.Ity.Name
 		}
@@ -475,6 +477,10 @@ func run(c *lib.Ctx, cs caseT) {
 	var q string
 	if cs.Op == "neg" {
 		q = "SELECT -" + le + from
+	} else if cs.Op == "abs" {
+		q = "SELECT ABS(" + le + ")" + from
+	} else if cs.Op == "sign" {
+		q = "SELECT SIGN(" + le + ")" + from
 	} else if cs.Op == "MOD" {
 		q = "SELECT MOD(" + le + ", " + re + ")" + from
 	} else {
@@ -507,7 +513,7 @@ func run(c *lib.Ctx, cs caseT) {
 	// the child of UnaryMinus is a *Literal for a literal and for a CAST of a literal (constant-folded by the analyzer)
 	lit := cs.Op == "neg" && (cs.L.Kind == "lit" || cs.L.Kind == "cast")
 	key := ""
-	if lo.Kind != "null" && (ro.Kind != "null" || cs.Op == "neg") {
+	if lo.Kind != "null" && (ro.Kind != "null" || unary(cs.Op)) {
 		key = cs.Op + "|" + lo.coqOperand() + "|" + ro.coqOperand()
 	}
 	opclass := func(o obs) string {
@@ -521,7 +527,7 @@ func run(c *lib.Ctx, cs caseT) {
 	}
 	c.Count("left:" + opclass(lo))
 	c.Count("result:" + out.Kind)
-	term := lib.CoqTuple(opCoq[cs.Op], lib.CoqBool(lit), lib.CoqZ(ldecl), lo.coqOperand(), ro.coqOperand(), out.coqResult())
+	term := "(FlatCase " + strings.Join([]string{opCoq[cs.Op], lib.CoqBool(lit), lib.CoqZ(ldecl), lo.coqOperand(), ro.coqOperand(), out.coqResult()}, " ") + ")"
 	id := c.Case(term, cs, key)
 
 	// ---------- property predicate on the implementation alone (math/big reference) ----------
@@ -543,7 +549,7 @@ func run(c *lib.Ctx, cs caseT) {
 			c.Count("predicate_failure:" + sig)
 		}
 	}
-	anyNull := lo.Kind == "null" || (cs.Op != "neg" && ro.Kind == "null")
+	anyNull := lo.Kind == "null" || (!unary(cs.Op) && ro.Kind == "null")
 	if anyNull {
 		if out.Kind != "null" && out.Kind != "err" {
 			fail("null-operand-non-null-result", "result "+out.coqResult()+" for a NULL operand")
@@ -552,7 +558,7 @@ func run(c *lib.Ctx, cs caseT) {
 	}
 	a := lo.rat()
 	var b *big.Rat
-	if cs.Op != "neg" {
+	if !unary(cs.Op) {
 		b = ro.rat()
 	}
 	var exact *big.Rat
@@ -566,6 +572,10 @@ func run(c *lib.Ctx, cs caseT) {
 		exact = new(big.Rat).Mul(a, b)
 	case "neg":
 		exact = new(big.Rat).Neg(a)
+	case "abs":
+		exact = new(big.Rat).Abs(a)
+	case "sign":
+		exact = new(big.Rat).SetInt64(int64(a.Sign()))
 	default:
 		if b.Sign() == 0 {
 			wantNull = true
@@ -596,6 +606,23 @@ func run(c *lib.Ctx, cs caseT) {
 	if out.Kind == "null" {
 		fail("unexpected-null", "NULL although the exact result is "+exact.RatString())
 		return
+	}
+	// the declared result type DECIMAL(p,s) must be able to hold the value that is returned
+	if out.Kind == "dec" && (cs.Op == "+" || cs.Op == "-" || cs.Op == "*" || cs.Op == "/") && len(res.Schema) == 1 {
+		var dp, ds int64
+		if n, _ := fmt.Sscanf(res.Schema[0].Type.String(), "decimal(%d,%d)", &dp, &ds); n == 2 {
+			c.Count("declared-type-checked")
+			ip := new(big.Int).Quo(new(big.Int).Abs(out.Z), new(big.Int).Exp(big.NewInt(10), big.NewInt(out.Scale), nil))
+			idig := int64(len(ip.String()))
+			if ip.Sign() == 0 {
+				idig = 0
+			}
+			if out.Scale > ds {
+				fail("declared-scale-too-small", fmt.Sprintf("value %s has %d fraction digits, declared %s", out.rat().FloatString(int(out.Scale)), out.Scale, res.Schema[0].Type.String()))
+			} else if idig > dp-ds {
+				fail("declared-precision-too-small", fmt.Sprintf("value has %d integer digits, declared %s", idig, res.Schema[0].Type.String()))
+			}
+		}
 	}
 	got := out.rat()
 	if cs.Op == "/" {
@@ -637,7 +664,7 @@ func run(c *lib.Ctx, cs caseT) {
 
 func main() {
 	lib.Main("C25", func(c *lib.Ctx) {
-		c.Header = "From Coq Require Import List NArith ZArith.\nImport ListNotations.\nFrom GMS Require Import Codec.C25Arith Corr.C25.\nOpen Scope N_scope."
+		c.Header = "From Coq Require Import List NArith ZArith.\nImport ListNotations.\nFrom GMS Require Import Codec.C25Arith Codec.C25Nested Corr.C25.\nOpen Scope N_scope."
 		c.CaseType = "C25.case"
 		c.MismatchFn = "C25.mismatches"
 		c.SetRule("SELECT a op b / SELECT -a with op in + - * DIV % /; operands: columns of all ten integer types " +
@@ -645,6 +672,12 @@ func main() {
 			"decimal literals (up to 40 digits), CAST AS SIGNED/UNSIGNED/DECIMAL, NULL; 1/12 of divisions by zero. " +
 			"Non-trivial = both operands non-NULL; distinct = distinct (op, evaluated operands).")
 		if c.ReplayFile != "" {
+			var tc treeCase
+			lib.LoadReplay(c.ReplayFile, &tc)
+			if tc.Tree != nil {
+				runTree(c, tc)
+				return
+			}
 			var cs caseT
 			lib.LoadReplay(c.ReplayFile, &cs)
 			run(c, cs)
@@ -687,6 +720,12 @@ func main() {
 			{"*", lit("99999999999999999999999999999999999999999999999999999999999999999"), lit("99999999999999999999999999999999999999999999999999999999999999999")},
 			{"+", col("decimal(65,30)", "99999999999999999999999999999999999.999999999999999999999999999999"), col("decimal(65,30)", "0.000000000000000000000000000001")},
 			{"+", null, lit("1")}, {"/", lit("1"), null},
+			{"*", col("decimal(30,28)", "52.9999999999999999999999999999"), lit("30.00000")}, {"-", lit("-9223372036854775808"), lit("0.5")},
+			{"abs", col("i8", "-128"), null}, {"abs", col("i16", "-32768"), null}, {"abs", col("i32", "-2147483648"), null},
+			{"abs", col("i64", "-9223372036854775808"), null}, {"abs", col("i24", "-8388608"), null}, {"abs", col("u64", "18446744073709551615"), null},
+			{"abs", col("decimal(10,2)", "-1.50"), null}, {"abs", lit("-128"), null}, {"sign", col("i64", "-9223372036854775808"), null},
+			{"sign", lit("0.4"), null}, {"sign", lit("-0.4"), null}, {"sign", lit("0.5"), null}, {"sign", col("u64", "18446744073709551615"), null},
+			{"sign", col("decimal(20,5)", "0.00001"), null}, {"sign", lit("0"), null},
 			// the most negative BIGINT evaluated through DECIMAL
 			{"%", col("i64", "-9223372036854775808"), lit("10")}, {"MOD", col("i64", "-9223372036854775808"), lit("10")},
 			{"MOD", lit("-9223372036854775808"), lit("3")}, {"+", col("i64", "-9223372036854775808"), lit("0.5")},
@@ -710,8 +749,34 @@ func main() {
 		}
 		// every boundary pair for the 64-bit types under + - * (the overflow frontier)
 		n := len(corpus)
+		leafn := func(o operandSpec) *node { return &node{Leaf: &o} }
+		bin := func(op string, l, r *node) *node { return &node{Op: op, L: l, R: r} }
+		trees := []*node{
+			bin("/", bin("/", leafn(lit("10")), leafn(lit("4"))), leafn(lit("2"))),
+			bin("+", bin("/", leafn(lit("1")), leafn(lit("3"))), bin("/", bin("/", leafn(lit("7")), leafn(lit("2"))), leafn(lit("3")))),
+			bin("/", leafn(lit("1")), bin("/", leafn(lit("2")), leafn(lit("3")))),
+			bin("/", bin("*", bin("/", leafn(col("decimal(10,2)", "7.25")), leafn(lit("3"))), leafn(col("i8", "5"))), leafn(lit("0.7"))),
+			bin("*", bin("+", leafn(col("i64", "9223372036854775807")), leafn(lit("1"))), leafn(lit("2"))),
+			bin("-", bin("+", leafn(col("i64", "9223372036854775807")), leafn(lit("1"))), leafn(lit("1"))),
+			bin("+", &node{Op: "neg", L: leafn(col("u8", "5"))}, leafn(col("u8", "3"))),
+			bin("+", bin("DIV", leafn(col("u8", "7")), leafn(col("i8", "-2"))), leafn(col("u16", "1"))),
+			&node{Op: "neg", L: bin("/", leafn(lit("2")), leafn(lit("3")))},
+			&node{Op: "neg", L: bin("+", leafn(col("i64", "-9223372036854775807")), leafn(lit("-1")))},
+			bin("%", bin("*", leafn(col("i32", "100000")), leafn(col("i32", "100000"))), leafn(lit("7"))),
+			bin("/", bin("+", leafn(col("decimal(20,5)", "1.00001")), leafn(lit("2"))), bin("DIV", leafn(lit("7")), leafn(lit("0")))),
+			bin("*", leafn(lit("1.5")), bin("/", leafn(lit("1")), leafn(lit("3")))),
+		}
+		for _, t := range trees {
+			runTree(c, treeCase{Tree: t})
+			n++
+		}
 		for n < c.N {
-			run(c, gen(c.R.Fork()))
+			r := c.R.Fork()
+			if r.Chance(2, 5) {
+				runTree(c, treeCase{Tree: genTree(r, r.Range(2, 3))})
+			} else {
+				run(c, gen(r))
+			}
 			n++
 		}
 	})
